@@ -9,7 +9,7 @@ from vlib import simworld as S
 from vlib import tlc, tracecheck, model
 
 OBS = os.path.join(tlc.SPECS, "pool", "PoolObs.tla")
-SRC = "/repo/windpyutils/parallel/own_proc_pools.py"
+SRC = tlc.REPO + "/windpyutils/parallel/own_proc_pools.py"
 
 
 NONE_MARK = -7          # what the functor returns for a None element
